@@ -3,4 +3,4 @@ from . import latfam, util
 
 globals().update(latfam.module('C18', util.theorems('C18'),
     'contexts as C03 with intents <=9 (quick) / 11 (thorough); observation = list(attributes()) and minimal() of every concept; non-trivial = a concept with >=2 generating sets',
-    extra_targets=['Tie/Matrices.vo'], partial=''))
+    extra_targets=['Tie/Matrices.vo'], partial='', exh=(9, 10)))
